@@ -1,7 +1,10 @@
 SPEC = {
-    "claimed": False,
+    "claimed": True,
     "gen": ["huffman"],
-    "theorems": ["C15_nonvacuous"],
+    "theorems": ["C15_raw", "C15_header", "C15_chunk_header", "C15_tick_encoding", "C15_chunk",
+                 "C15_K15_refuted", "C15_K15H_refuted",
+                 "C15_refuse_tick", "C15_accept_tick", "C15_raw_tick_panics",
+                 "C15_typed_partial", "C15_K15W_refuted", "C15_nonvacuous"],
     "allowed_axioms": [],
     "extract": {
         "LibTw2.Model.Demo": ["writer_new", "write_chunk", "write_all", "read_all", "header_view"],
@@ -11,7 +14,42 @@ SPEC = {
     "components": [{"bin": "demo", "driver": "drv_demo", "timeout": {"quick": 900, "thorough": 3000}}],
     "release": False,
     "rule": "see components.demo.rule",
-    "trusted_base": [],
-    "assumptions": [],
-    "explanation": "",
+    "trusted_base": [
+        "Model/Demo.v is hand-written from demo/src/format.rs (header layout as the binrw 0.11.1 attributes lay it "
+        "out, TickMarker::new, ChunkHeader::read/write), writer.rs and reader.rs; binrw itself is not modelled: the "
+        "bytes it writes and the error kind it reports for every truncation / bad magic / failed assert are compared "
+        "with the model on every case (file bytes byte for byte)",
+        "Model/DemoHL.v is hand-written from demo/src/ddnet/writer.rs and reader.rs on top of Model/Snap.v (C09-C11's "
+        "snapshot model); the typed layer is cut at gamenet's interface: an object is (obj_type_id(), id, encode()), "
+        "a game message is the bytes msg.encode writes, P::obj_size is a table passed with every case",
+        "the Huffman decoder used by the model reverses its output in linear time (Proofs/DemoBase.demo_decompress_eq "
+        "proves it equal to Model/Huffman.decompress)",
+        "in-memory files only (io::Cursor): write errors are not modelled, read errors are the end of the data",
+    ],
+    "assumptions": [
+        "C15_raw: the header meets winput_ok (bytes, NUL-free strings shorter than their capacity, 32-byte digest, "
+        "u32 checksum, length >= 0 - K15H otherwise), ticks are i32, payloads are bytes, no payload is longer than "
+        "MAX_SNAPSHOT_SIZE = 65536 bytes (K15 otherwise), and the writer accepted every call (write_all = Ok: ticks "
+        "increase strictly, every compressed payload is below 65536 bytes, every int-packed message is at most 65536 bytes)",
+        "C15_typed_partial: no call of the history panics (the results may be Ok or any Err)",
+    ],
+    "explanation": "Raw layer proved for all headers and all chunk sequences by induction over the chunk list with the "
+                   "writer's prev_tick and the reader's current_tick in step; it uses C07's round trip on the built-in "
+                   "table (decidably well-formed) and C08's varint round trip. Chunk headers: every delta 0..31, every "
+                   "absolute i32 tick, every size 0..65535 with the three encodings' lengths (boundaries 29/30, 255/256); "
+                   "inline ticks exactly for non-key-frame gaps 1..31. High-level writer: a tick <= last_tick returns "
+                   "TooLowTickNumber with the state unchanged and nothing written; larger ticks are never refused for "
+                   "their number. Typed layer: proved that DemoReader is handed exactly the payloads DemoWriter encoded "
+                   "(key frame = Snap::write of the built snapshot, else Delta::write of Delta::create(last, new), key "
+                   "frames by the 250-tick rule); the object-set equality itself rests on the snapshot codec (C09/C10) "
+                   "and is checked by the harness on world histories (objects of 36 DDNet types incl. 16 UUID types "
+                   "appearing/changing/vanishing over several key-frame intervals) through the real typed API.",
+    "level_text": "proof for all inputs at the raw layer and for the tick refusal; typed layer: transport proved, "
+                  "object-set equality by differential testing + oracle (C15_typed_partial)",
+    "level_note": "Known findings: K15 (raw Writer accepts payloads above 65536 bytes that the Reader rejects - "
+                  "C15_K15_refuted), K15H (Writer::new accepts a NUL inside a string / a negative length - "
+                  "C15_K15H_refuted), K15W (errors of DemoWriter other than the tick refusal corrupt its state - "
+                  "C15_K15W_refuted). Fixed in /repo: #13 (repeated tick panicked) and the stale extended-type registry "
+                  "(builder recycled from the snapshot before the last: Delta::create panicked on world histories "
+                  "with UUID-typed objects).",
 }
